@@ -181,6 +181,33 @@ def r2(p, rep):
         raise AnalysisError(f"only {n_sites} internal axis-name construction sites found")
 
 
+def r9(p, rep):
+    rep.rule("C08.R9", "names that are numbered by the size of a table come from one table per call: a sub-expression that occurs in several tensors gets the same generated name in all of them", "lint (a numbering table created inside a helper that runs once per expression) with a positive self-check", floor=1)
+    import os
+
+    n = 0
+    for f in p.funcs.values():
+        if f.parent is not None or not isinstance(f.node, ast.FunctionDef) or any(f.module.name == m for m in common.OFF_PATH_MODULES):
+            continue
+        k, hits = common.restarting_counters(f.node)
+        n += k
+        for site, table, g, how in hits:
+            rep.violation("C08.R9", f"{f.qualname}:{g.name}:{table}", f"{f.module.rel}:{site.lineno}", f"`{norm(site)[:70]}` numbers new entries by len({table}), but `{table}` is created inside `{g.name}`, which is {how}: the numbering restarts for every expression, so the same sub-expression is called cse.0 in one tensor and cse.1 in another (axes are then matched by the wrong name)")
+        if k and not hits:
+            rep.ok("C08.R9", f"{f.qualname}:numbering-tables", f.loc, f"{k} numbering site(s); their tables live as long as the call")
+    pos = os.path.join(os.path.dirname(os.path.dirname(os.path.abspath(__file__))), "selftest", "positive", "restarting_counter.py")
+    tree = ast.parse(open(pos).read())
+    from sa.core import set_parents
+
+    set_parents(tree)
+    fns = {x.name: x for x in tree.body if isinstance(x, ast.FunctionDef)}
+    b_, g_ = common.restarting_counters(fns["bad"]), common.restarting_counters(fns["good"])
+    if not (len(b_[1]) == 1 and not g_[1]):
+        raise AnalysisError("self-check of the restarting-counter lint failed on selftest/positive/restarting_counter.py")
+    rep.ok("C08.R9", "self-check:positive-example", "selftest/positive/restarting_counter.py", "the lint reports the seeded positive example and is silent on its corrected twin")
+    rep.ok("C08.R9", "sweep", "einx/", f"{n} numbering sites inspected", nontrivial=False)
+
+
 def run(p, rep, tier):
     r1(p, rep)
     r2(p, rep)
@@ -192,4 +219,6 @@ def run(p, rep, tier):
     c05.r1(p, rep)
     c01.r10(p, rep)  # a skipped window check changes which positions are transposed
     c01.r9(p, rep)  # composition / inversion relations break when split and re-assembly disagree on the nesting order
+    r9(p, rep)
+    c01.r12(p, rep)  # operands that list their batch axes in different orders are paired wrongly when the groups are not shared
     rep.info["undecided"] = "transposition, output permutation, regrouping, inversion and composition relations (value-level); e.g. the non-adjacent diagonal defect of classical_from_numpy.diagonal is not found"
